@@ -146,6 +146,19 @@ class Program:
                 for t in st.targets:
                     if isinstance(t, ast.Name):
                         globs[t.id] = st.value
+        # imports inside functions are treated like module-level ones, so
+        # that a locally imported primitive cannot evade classification
+        for st in ast.walk(tree):
+            if isinstance(st, ast.Import) and st not in tree.body:
+                for a in st.names:
+                    imps.setdefault(
+                        a.asname or a.name.split('.')[0],
+                        a.name if a.asname else a.name.split('.')[0])
+            elif isinstance(st, ast.ImportFrom) and st not in tree.body \
+                    and not st.level:
+                for a in st.names:
+                    imps.setdefault(a.asname or a.name,
+                                    (st.module or '') + '.' + a.name)
         self.imports[mod] = imps
         self.module_globals[mod] = globs
 
